@@ -1886,14 +1886,14 @@ class ContractionTree:
         tree.already_optimized.setdefault(minimize, set())
         already_optimized = tree.already_optimized[minimize]
 
-        if select == "random":
-            rng = get_rng(seed)
-        else:
-            if select == "max":
-                i = 0
-            elif select == "min":
-                i = -1
-            rng = None
+        # a single generator drives both the selection of subtree roots
+        # (``select='random'``) and the subtree search
+        # (``subtree_search='random'``)
+        rng = get_rng(seed)
+        if select == "max":
+            i = 0
+        elif select == "min":
+            i = -1
 
         candidates, weights = tree.calc_subtree_candidates(
             pwr=weight_pwr, what=weight_what
@@ -1908,7 +1908,7 @@ class ContractionTree:
         r = 0
         try:
             while candidates and r < maxiter:
-                if rng is not None:
+                if select == "random":
                     (i,) = rng.choices(range(len(candidates)), weights=weights)
 
                 weights.pop(i)
@@ -1916,7 +1916,10 @@ class ContractionTree:
 
                 # get a subtree to possibly reconfigure
                 sub_leaves, sub_branches = tree.get_subtree(
-                    sub_root, size=subtree_size, search=subtree_search
+                    sub_root,
+                    size=subtree_size,
+                    search=subtree_search,
+                    seed=rng,
                 )
 
                 sub_leaves = frozenset(sub_leaves)
@@ -2084,6 +2087,7 @@ class ContractionTree:
                         "select": rng.choice(subtree_select),
                         "weight_pwr": rng.choice(subtree_weight_pwr),
                         "weight_what": rng.choice(subtree_weight_what),
+                        "seed": rng.randrange(0, 2**32),
                     }
                     for _ in range(num_trees)
                 ]
@@ -4051,7 +4055,8 @@ class PartitionTreeBuilder:
         **partition_opts,
     ):
         tree = ContractionTree(inputs, output, size_dict, track_childless=True)
-        rand_size_dict = jitter_dict(size_dict, random_strength, seed)
+        rng = get_rng(seed)
+        rand_size_dict = jitter_dict(size_dict, random_strength, rng)
         leaves = tuple(tree.gen_leaves())
         for node in leaves:
             tree._add_node(node, check=check)
@@ -4066,6 +4071,7 @@ class PartitionTreeBuilder:
                 output,
                 rand_size_dict,
                 parts=parts,
+                seed=rng,
                 **partition_opts,
             )
             leaves = [
